@@ -598,6 +598,17 @@ func (rs *runState) runAttempt(att int, a AttemptPlan, dsnOverride string) {
 		cur := rs.streamerPosGuess
 		nbefore = nCommitsBefore(sc.Log, cur, a.Inject.At)
 	}
+	if strings.HasPrefix(a.MapperFault, "mismatch:") || strings.HasPrefix(a.MapperFault, "err:") {
+		// committing units completely served before the first table map of the faulted table
+		name := a.MapperFault[strings.Index(a.MapperFault, ":")+1:]
+		evs, _ := sc.Log.Served(rs.streamerPosGuess)
+		for i, ev := range evs {
+			if ev.K == "tablemap" && ev.Tbl.DB+"."+ev.Tbl.Name == name {
+				nbefore = nCommitsBefore(sc.Log, rs.streamerPosGuess, i)
+				break
+			}
+		}
+	}
 	rec.Emit(M{"ev": "attempt", "att": att, "plan": a.J(), "nbefore": nbefore})
 	baseG := libraryGoroutines() // goroutines leaked by earlier attempts are not charged to this one
 	t0 := time.Now()
